@@ -503,6 +503,7 @@ func init() {
 	ctl("traffic signalled before the RPC's error is looked at", "T-TRAFFIC", "transact|traffic signalled", "client", "ovsdbClient", "transact", kStmt, "err := o.rpcClient.CallWithContext(ctx, \"transact\", args, &reply)", 0, func(orig string) string {
 		return orig + "\nif o.trafficSeen != nil {\nselect {\ncase o.trafficSeen <- struct{}{}:\ndefault:\n}\n}"
 	})
+	ctl("OvsSet encoder quotes with %q", "K-JSONQUOTE", "(ovsdb.OvsSet).MarshalJSON|no Go-syntax quoting", "ovsdb", "OvsSet", "MarshalJSON", kStmt, "return json.Marshal(o.GoSet[0])", 0, to("if s, ok := o.GoSet[0].(string); ok {\nreturn []byte(fmt.Sprintf(\"%q\", s)), nil\n}\nreturn json.Marshal(o.GoSet[0])"))
 	ctl("OvsMap decoder refuses boolean keys", "K-ATOMKEYS", "UnmarshalJSON|bool key admitted", "ovsdb", "OvsMap", "UnmarshalJSON", kCase, "string, float64, bool, UUID", 0, sub("float64, bool", "float64"))
 	ctl("Row decoder keeps going after a column that cannot be decoded", "ERR-USE-CODEC", "(*ovsdb.Row).UnmarshalJSON|error of", "ovsdb", "Row", "UnmarshalJSON", kStmt, "return err", 0, to("continue"))
 	ctl("event processor not counted in handlerShutdown", "R-WG", "connect|go ", "client", "ovsdbClient", "connect", kStmt, "defer o.handlerShutdown.Done()", 0, del)
@@ -572,4 +573,12 @@ func init() {
 
 func init() {
 	ctl("monitors looked at while the cache lock is held", "L-ORDER", "order client.database.cacheMutex -> client.database.monitorsMutex", "client", "", "waitForCacheConsistent", kStmt, "if isCacheConsistent(db) {", 0, before("_ = hasMonitors(db)"))
+}
+
+func init() {
+	ctl("the API of a database read without its lock", "L2", "lockedAPI|client.database.api read", "client", "database", "lockedAPI", kStmt, "db.cacheMutex.RLock()", 0, del)
+}
+
+func init() {
+	ctl("connection lost but still reported connected", "S-CONNFLAG", "handleDisconnectNotification|rpcClient = nil", "client", "ovsdbClient", "handleDisconnectNotification", kStmt, "o.connected = false", 0, del)
 }
